@@ -45,6 +45,43 @@ theorem C09_shared_entries_equal (durs : List Nat) (R ts : Nat) (w₁ w₂ : Win
   have := startG_injective durs R hn (advPositive_durG' hn hpos) hs
   rw [this]
 
+/-- a position that starts before another position ends, and vice versa, is that position:
+intervals `[startG g, startG g + durG' g)` of different positions are disjoint -/
+theorem positions_disjoint (durs : List Nat) (R : Nat) (hn : 0 < durs.length)
+    (hpos : ∀ g, 0 < durG' durs R g) {g g' : Nat} (h : g < g') :
+    (startG durs R g : Int) + durG' durs R g ≤ startG durs R g' := by
+  have h1 : g + 1 ≤ g' := h
+  have hm := startG_le_of_le durs R hn (fun k => Int.le_of_lt (hpos k)) h1
+  have hs := startG_succ durs R g hn
+  have : (startG durs R (g + 1) : Int) ≤ startG durs R g' := by exact_mod_cast hm
+  omega
+
+/-- **Two manifests agree on every segment they both describe, even partially.**  If an entry
+of one timeline and an entry of the other overlap in time (each starts before the other
+ends), they are the same entry – same start and same duration. -/
+theorem C09_overlapping_entries_equal (durs : List Nat) (R ts : Nat) (w₁ w₂ : Win) (f₁ f₂ : Nat)
+    (hn : 0 < durs.length) (hpos : AdvPositive durs R) :
+    let l₁ := liveEntries durs R ts w₁ f₁
+    let l₂ := liveEntries durs R ts w₂ f₂
+    ∀ i j (hi : i < l₁.length) (hj : j < l₂.length),
+      (l₁[i]).1 < (l₂[j]).1 + (l₂[j]).2 → (l₂[j]).1 < (l₁[i]).1 + (l₁[i]).2 → l₁[i] = l₂[j] := by
+  intro l₁ l₂ i j hi hj ho1 ho2
+  have h1 := (C02_gapless durs R ts (tcFirst w₁ ts) w₁.tsbd f₁ hn hpos).2 i hi
+  have h2 := (C02_gapless durs R ts (tcFirst w₂ ts) w₂.tsbd f₂ hn hpos).2 j hj
+  have e1 : l₁[i] = ((startG durs R (index durs R (tcFirst w₁ ts) + i) : Int),
+      durG' durs R (index durs R (tcFirst w₁ ts) + i)) := h1
+  have e2 : l₂[j] = ((startG durs R (index durs R (tcFirst w₂ ts) + j) : Int),
+      durG' durs R (index durs R (tcFirst w₂ ts) + j)) := h2
+  rw [e1, e2] at ho1 ho2 ⊢
+  simp only at ho1 ho2
+  have hd := advPositive_durG' hn hpos
+  generalize index durs R (tcFirst w₁ ts) + i = g at *
+  generalize index durs R (tcFirst w₂ ts) + j = g' at *
+  rcases Nat.lt_trichotomy g g' with hlt | heq | hgt
+  · have := positions_disjoint durs R hn hd hlt; omega
+  · rw [heq]
+  · have := positions_disjoint durs R hn hd hgt; omega
+
 /-- **The listed window starts no earlier as firstAvailableTime advances.**  If
 `firstAvailableTime` of the second request is not before that of the first, the first
 listed position does not move back. -/
